@@ -712,3 +712,20 @@ Proof.
 Qed.
 
 End Theorems.
+
+(* ------------------------------------------------------------------------------------------ *)
+(* the excluded corner, computed: the monitors accept the transcript, the run leaves `no_stale`     *)
+Definition ex_corner_params : params := mkParams 3 B19200 100 80000 1 16 1 11 None.
+Definition ex_corner_inputs : list minput :=
+  [InApi ApiOnline; InPoll 834 false []; InPoll 2629 false [220;5;3;220;5;3;220;5;3]; InApi ApiOnline; InPoll 134064 false []].
+
+Lemma c01_corner_example :
+  builder_validb ex_corner_params = true /\ ins_ok 0 ex_corner_inputs /\
+  monitor ex_corner_params 0 (model_transcript unit unit_app_ops ex_corner_params [] ex_corner_inputs) = [] /\
+  ~ transcript_ok unit unit_app_ops ex_corner_params no_stale [] ex_corner_inputs.
+Proof.
+  split; [reflexivity|]. split.
+  { cbn. unfold time_ok, all_bytes. repeat split; try lia; repeat constructor; unfold is_byte; lia. }
+  split; [vm_compute; reflexivity|].
+  intros H. vm_compute in H. destruct H as (_ & _ & _ & (H & _)). specialize (H eq_refl). discriminate H.
+Qed.
